@@ -213,6 +213,21 @@ func (prop) Generate(r *prng.Rand, phase string) any {
 			s.Kind = mgeom.MPg
 		}
 		s.G = cfg.Gen(r, s.Kind, l, 0)
+		if r.Chance(0.0005) {
+			// a very large object (a chunked or parallel copy would engage)
+			s.Kind = mgeom.LS
+			st := mgeom.Stride(l)
+			nc := (1<<16)/st + []int{-1, 0, 1, 7}[r.Intn(4)]
+			cs := make([]mgeom.Coord, nc)
+			for i := range cs {
+				c := make(mgeom.Coord, st)
+				for j := range c {
+					c[j] = mgeom.F(float64(i*st + j))
+				}
+				cs[i] = c
+			}
+			s.G = &mgeom.Geom{T: mgeom.LS, L: l, P: [][][]mgeom.Coord{{cs}}}
+		}
 		s.G.S = mgeom.SRID(r)
 		if r.Chance(0.35) {
 			s.Reserve = r.Range(1, 12)
